@@ -105,23 +105,47 @@ func (b *backend) setCompactRecord(ctx context.Context, revision uint64) error {
 }
 
 func (b *backend) getCompactBorders() [][]byte {
-	// exclude skipped key prefix
-	var keyPrefixes []string
-	keyPrefixes = append(keyPrefixes, b.config.Prefix)
-	keyPrefixes = append(keyPrefixes, b.config.SkippedPrefixes...)
-
-	// construct compact borders
-	var compactBorders [][]byte
-	for _, key := range keyPrefixes {
-		if !strings.HasSuffix(key, "/") {
-			key = key + "/"
+	dir := func(prefix string) (start, end []byte) {
+		if !strings.HasSuffix(prefix, "/") {
+			prefix = prefix + "/"
 		}
-		compactBorders = append(compactBorders, b.coder.EncodeObjectKey([]byte(key), 0))
-		compactBorders = append(compactBorders, b.coder.EncodeObjectKey(PrefixEnd([]byte(key)), 0))
+		return []byte(prefix), PrefixEnd([]byte(prefix))
 	}
-	// sort to make sure compact in right range
-	sort.Slice(compactBorders, func(i, j int) bool {
-		return bytes.Compare(compactBorders[i], compactBorders[j]) < 0
+	lo, hi := dir(b.config.Prefix)
+
+	// the skipped directories, clipped to the directory of the prefix and sorted: nested, duplicate or
+	// foreign skipped prefixes must not turn a skipped directory into a compacted one
+	type span struct{ start, end []byte }
+	var skipped []span
+	for _, prefix := range b.config.SkippedPrefixes {
+		start, end := dir(prefix)
+		if bytes.Compare(start, lo) < 0 {
+			start = lo
+		}
+		if bytes.Compare(end, hi) > 0 {
+			end = hi
+		}
+		if bytes.Compare(start, end) < 0 {
+			skipped = append(skipped, span{start, end})
+		}
+	}
+	sort.Slice(skipped, func(i, j int) bool {
+		return bytes.Compare(skipped[i].start, skipped[j].start) < 0
 	})
+
+	// construct compact borders: the directory of the prefix minus the union of the skipped directories
+	var compactBorders [][]byte
+	cur := lo
+	for _, sp := range skipped {
+		if bytes.Compare(cur, sp.start) < 0 {
+			compactBorders = append(compactBorders, b.coder.EncodeObjectKey(cur, 0), b.coder.EncodeObjectKey(sp.start, 0))
+		}
+		if bytes.Compare(cur, sp.end) < 0 {
+			cur = sp.end
+		}
+	}
+	if bytes.Compare(cur, hi) < 0 {
+		compactBorders = append(compactBorders, b.coder.EncodeObjectKey(cur, 0), b.coder.EncodeObjectKey(hi, 0))
+	}
 	return compactBorders
 }
